@@ -1,7 +1,2202 @@
-//! C32: not implemented yet.
+//! C32 JSON documents round-trip through JSONB.
+//!
+//! Pipeline under test: JSON text -> `turdb::parsing::parse_json` -> `JsonValue::to_jsonb_bytes`
+//! (and the second encoder `JsonbBuilder::build`) -> `JsonbView` / `OwnedValue::jsonb_*`.
+//! Oracle: an independent tiny JSON model (generator + renderer + strict RFC 8259 parser, all in
+//! this file). Numbers are compared as f64 (`==`), the representation the module documents
+//! (`JsonValue::Number(f64)`). Duplicate keys are undocumented: for a duplicated key only
+//! "the value read is one of the values given for that key" is asserted.
+use crate::report::{catch, panic_site, Ctx};
+use crate::rng::Rng;
 use crate::Args;
+use serde_json::json;
+use std::collections::HashMap;
+use turdb::parsing::{parse_json, JsonValue};
+use turdb::records::jsonb::{JsonbBuilder, JsonbBuilderValue, JsonbValue, JsonbView};
+use turdb::OwnedValue;
 
-pub fn run(_a: &Args) -> i32 {
-    println!("INCONCLUSIVE property=C32 reason=check not implemented yet");
-    2
+const U16_MAX_LEN: usize = 65535;
+
+// ------------------------------------------------------------------------------------------
+// independent model
+// ------------------------------------------------------------------------------------------
+
+#[derive(Clone, Debug)]
+enum J {
+    Null,
+    Bool(bool),
+    /// value, optional literal text to render (None: shortest round-trip form)
+    Num(f64, Option<String>),
+    Str(String),
+    Arr(Vec<J>),
+    Obj(Vec<(String, J)>),
+}
+
+fn tname(j: &J) -> &'static str {
+    match j {
+        J::Null => "null",
+        J::Bool(_) => "bool",
+        J::Num(..) => "number",
+        J::Str(_) => "string",
+        J::Arr(_) => "array",
+        J::Obj(_) => "object",
+    }
+}
+
+fn group<'a>(pairs: &'a [(String, J)]) -> HashMap<&'a str, Vec<&'a J>> {
+    let mut m: HashMap<&str, Vec<&J>> = HashMap::with_capacity(pairs.len());
+    for (k, v) in pairs {
+        m.entry(k.as_str()).or_default().push(v);
+    }
+    m
+}
+
+/// JSON value equality; for duplicated keys: every value on one side has an equal value under the
+/// same key on the other side (no claim about which duplicate wins or how many survive).
+fn jeq(a: &J, b: &J) -> bool {
+    match (a, b) {
+        (J::Null, J::Null) => true,
+        (J::Bool(x), J::Bool(y)) => x == y,
+        (J::Num(x, _), J::Num(y, _)) => x == y,
+        (J::Str(x), J::Str(y)) => x == y,
+        (J::Arr(x), J::Arr(y)) => x.len() == y.len() && x.iter().zip(y).all(|(p, q)| jeq(p, q)),
+        (J::Obj(x), J::Obj(y)) => {
+            if x.len() == y.len() && x.iter().zip(y).all(|(p, q)| p.0 == q.0 && jeq(&p.1, &q.1)) {
+                return true;
+            }
+            let gx = group(x);
+            let gy = group(y);
+            if gx.len() != gy.len() {
+                return false;
+            }
+            for (k, vs) in &gx {
+                let ws = match gy.get(k) {
+                    Some(w) => w,
+                    None => return false,
+                };
+                if !vs.iter().all(|v| ws.iter().any(|w| jeq(v, w))) || !ws.iter().all(|w| vs.iter().any(|v| jeq(v, w))) {
+                    return false;
+                }
+            }
+            true
+        }
+        _ => false,
+    }
+}
+
+/// exact equality (order and duplicates preserved) — harness self-check only
+fn jeq_exact(a: &J, b: &J) -> bool {
+    match (a, b) {
+        (J::Arr(x), J::Arr(y)) => x.len() == y.len() && x.iter().zip(y).all(|(p, q)| jeq_exact(p, q)),
+        (J::Obj(x), J::Obj(y)) => x.len() == y.len() && x.iter().zip(y).all(|(p, q)| p.0 == q.0 && jeq_exact(&p.1, &q.1)),
+        (J::Arr(_), _) | (J::Obj(_), _) | (_, J::Arr(_)) | (_, J::Obj(_)) => false,
+        _ => jeq(a, b),
+    }
+}
+
+#[derive(Default, Clone, Copy, Debug)]
+struct Feat {
+    nodes: u32,
+    depth: u32,
+    dup_keys: bool,
+    long_str: bool,
+    long_key: bool,
+    nonfinite: bool,
+    non_bmp: bool,
+    max_keys: u32,
+}
+
+fn features(j: &J, depth: u32, f: &mut Feat) {
+    f.nodes += 1;
+    match j {
+        J::Num(v, _) => {
+            if !v.is_finite() {
+                f.nonfinite = true
+            }
+        }
+        J::Str(s) => {
+            if s.len() > U16_MAX_LEN {
+                f.long_str = true
+            }
+            if s.chars().any(|c| c as u32 > 0xFFFF) {
+                f.non_bmp = true
+            }
+        }
+        J::Arr(x) => {
+            f.depth = f.depth.max(depth + 1);
+            for e in x {
+                features(e, depth + 1, f)
+            }
+        }
+        J::Obj(x) => {
+            f.depth = f.depth.max(depth + 1);
+            f.max_keys = f.max_keys.max(x.len() as u32);
+            if group(x).len() != x.len() {
+                f.dup_keys = true
+            }
+            for (k, v) in x {
+                if k.len() > U16_MAX_LEN {
+                    f.long_key = true
+                }
+                if k.chars().any(|c| c as u32 > 0xFFFF) {
+                    f.non_bmp = true
+                }
+                features(v, depth + 1, f)
+            }
+        }
+        _ => {}
+    }
+}
+
+fn mix(h: &mut u64, x: u64) {
+    *h = (*h ^ x).wrapping_mul(0x100000001b3).rotate_left(5);
+}
+
+/// structural hash: node kinds, container sizes, string length buckets / character classes,
+/// number magnitude classes (not the random payload itself)
+fn shape(j: &J, h: &mut u64) {
+    match j {
+        J::Null => mix(h, 1),
+        J::Bool(b) => mix(h, 2 + *b as u64),
+        J::Num(v, _) => {
+            let e = if *v == 0.0 { 0 } else { (v.abs().log10().floor() as i64).clamp(-400, 400) / 4 };
+            mix(h, 10 + ((v.is_sign_negative() as u64) << 1) + ((v.fract() == 0.0) as u64));
+            mix(h, e as u64);
+        }
+        J::Str(s) => str_shape(s, h, 20),
+        J::Arr(x) => {
+            mix(h, 30 + ((x.len() as u64) << 8));
+            for e in x {
+                shape(e, h)
+            }
+            mix(h, 31);
+        }
+        J::Obj(x) => {
+            mix(h, 40 + ((x.len() as u64) << 8));
+            for (k, v) in x {
+                str_shape(k, h, 41);
+                shape(v, h)
+            }
+            mix(h, 42);
+        }
+    }
+}
+
+fn str_shape(s: &str, h: &mut u64, tag: u64) {
+    let mut fl = 0u64;
+    for c in s.chars() {
+        let u = c as u32;
+        fl |= if u < 0x20 {
+            1
+        } else if c == '"' || c == '\\' || c == '/' {
+            2
+        } else if u < 0x80 {
+            4
+        } else if u <= 0xFFFF {
+            8
+        } else {
+            16
+        };
+    }
+    let lb = if s.len() <= 12 { s.len() as u64 } else { 12 + (64 - (s.len() as u64).leading_zeros() as u64) };
+    mix(h, tag + (fl << 8) + (lb << 16));
+}
+
+// ------------------------------------------------------------------------------------------
+// independent strict parser (RFC 8259): whole text must be exactly one value + whitespace
+// ------------------------------------------------------------------------------------------
+
+#[derive(Debug)]
+enum PErr {
+    Invalid(&'static str),
+    /// valid JSON but outside what this check asserts on (non-finite f64, absurd depth)
+    Unsupported(&'static str),
+}
+
+struct SP<'a> {
+    t: &'a str,
+    b: &'a [u8],
+    i: usize,
+    surrogate_pairs: u32,
+}
+
+impl<'a> SP<'a> {
+    fn ws(&mut self) {
+        while self.i < self.b.len() && matches!(self.b[self.i], b' ' | b'\t' | b'\n' | b'\r') {
+            self.i += 1;
+        }
+    }
+    fn lit(&mut self, w: &str, v: J) -> Result<J, PErr> {
+        if self.t[self.i..].starts_with(w) {
+            self.i += w.len();
+            Ok(v)
+        } else {
+            Err(PErr::Invalid("bad literal"))
+        }
+    }
+    fn value(&mut self, depth: usize) -> Result<J, PErr> {
+        if depth > 64 {
+            return Err(PErr::Unsupported("depth > 64"));
+        }
+        self.ws();
+        match self.b.get(self.i).copied() {
+            None => Err(PErr::Invalid("end of input")),
+            Some(b'{') => {
+                self.i += 1;
+                let mut pairs = vec![];
+                self.ws();
+                if self.b.get(self.i) == Some(&b'}') {
+                    self.i += 1;
+                    return Ok(J::Obj(pairs));
+                }
+                loop {
+                    self.ws();
+                    if self.b.get(self.i) != Some(&b'"') {
+                        return Err(PErr::Invalid("expected key"));
+                    }
+                    let k = self.string()?;
+                    self.ws();
+                    if self.b.get(self.i) != Some(&b':') {
+                        return Err(PErr::Invalid("expected colon"));
+                    }
+                    self.i += 1;
+                    let v = self.value(depth + 1)?;
+                    pairs.push((k, v));
+                    self.ws();
+                    match self.b.get(self.i) {
+                        Some(b',') => self.i += 1,
+                        Some(b'}') => {
+                            self.i += 1;
+                            return Ok(J::Obj(pairs));
+                        }
+                        _ => return Err(PErr::Invalid("expected , or }")),
+                    }
+                }
+            }
+            Some(b'[') => {
+                self.i += 1;
+                let mut items = vec![];
+                self.ws();
+                if self.b.get(self.i) == Some(&b']') {
+                    self.i += 1;
+                    return Ok(J::Arr(items));
+                }
+                loop {
+                    items.push(self.value(depth + 1)?);
+                    self.ws();
+                    match self.b.get(self.i) {
+                        Some(b',') => self.i += 1,
+                        Some(b']') => {
+                            self.i += 1;
+                            return Ok(J::Arr(items));
+                        }
+                        _ => return Err(PErr::Invalid("expected , or ]")),
+                    }
+                }
+            }
+            Some(b'"') => Ok(J::Str(self.string()?)),
+            Some(b't') => self.lit("true", J::Bool(true)),
+            Some(b'f') => self.lit("false", J::Bool(false)),
+            Some(b'n') => self.lit("null", J::Null),
+            Some(b'-') | Some(b'0'..=b'9') => self.number(),
+            Some(_) => Err(PErr::Invalid("unexpected character")),
+        }
+    }
+    fn digits(&mut self) -> usize {
+        let s = self.i;
+        while self.i < self.b.len() && self.b[self.i].is_ascii_digit() {
+            self.i += 1;
+        }
+        self.i - s
+    }
+    fn number(&mut self) -> Result<J, PErr> {
+        let s = self.i;
+        if self.b[self.i] == b'-' {
+            self.i += 1;
+        }
+        match self.b.get(self.i) {
+            Some(b'0') => self.i += 1,
+            Some(b'1'..=b'9') => {
+                self.digits();
+            }
+            _ => return Err(PErr::Invalid("number: no digits")),
+        }
+        if self.b.get(self.i) == Some(&b'.') {
+            self.i += 1;
+            if self.digits() == 0 {
+                return Err(PErr::Invalid("number: no fraction digits"));
+            }
+        }
+        if matches!(self.b.get(self.i), Some(b'e') | Some(b'E')) {
+            self.i += 1;
+            if matches!(self.b.get(self.i), Some(b'+') | Some(b'-')) {
+                self.i += 1;
+            }
+            if self.digits() == 0 {
+                return Err(PErr::Invalid("number: no exponent digits"));
+            }
+        }
+        let txt = &self.t[s..self.i];
+        let v: f64 = txt.parse().map_err(|_| PErr::Invalid("number: std rejects"))?;
+        if !v.is_finite() {
+            return Err(PErr::Unsupported("number overflows f64"));
+        }
+        Ok(J::Num(v, Some(txt.to_string())))
+    }
+    fn hex4(&mut self) -> Result<u32, PErr> {
+        if self.i + 4 > self.b.len() {
+            return Err(PErr::Invalid("\\u: short"));
+        }
+        let mut v = 0u32;
+        for k in 0..4 {
+            let d = (self.b[self.i + k] as char).to_digit(16).ok_or(PErr::Invalid("\\u: non-hex"))?;
+            v = v * 16 + d;
+        }
+        self.i += 4;
+        Ok(v)
+    }
+    fn string(&mut self) -> Result<String, PErr> {
+        self.i += 1;
+        let mut out = String::new();
+        let mut seg = self.i;
+        loop {
+            let c = *self.b.get(self.i).ok_or(PErr::Invalid("unterminated string"))?;
+            match c {
+                b'"' => {
+                    out.push_str(&self.t[seg..self.i]);
+                    self.i += 1;
+                    return Ok(out);
+                }
+                b'\\' => {
+                    out.push_str(&self.t[seg..self.i]);
+                    self.i += 1;
+                    let e = *self.b.get(self.i).ok_or(PErr::Invalid("unterminated escape"))?;
+                    self.i += 1;
+                    match e {
+                        b'"' => out.push('"'),
+                        b'\\' => out.push('\\'),
+                        b'/' => out.push('/'),
+                        b'b' => out.push('\u{8}'),
+                        b'f' => out.push('\u{c}'),
+                        b'n' => out.push('\n'),
+                        b'r' => out.push('\r'),
+                        b't' => out.push('\t'),
+                        b'u' => {
+                            let hi = self.hex4()?;
+                            if (0xD800..0xDC00).contains(&hi) {
+                                if self.b.get(self.i) == Some(&b'\\') && self.b.get(self.i + 1) == Some(&b'u') {
+                                    self.i += 2;
+                                    let lo = self.hex4()?;
+                                    if !(0xDC00..0xE000).contains(&lo) {
+                                        return Err(PErr::Invalid("high surrogate not followed by low"));
+                                    }
+                                    let cp = 0x10000 + ((hi - 0xD800) << 10) + (lo - 0xDC00);
+                                    out.push(char::from_u32(cp).unwrap());
+                                    self.surrogate_pairs += 1;
+                                } else {
+                                    return Err(PErr::Invalid("lone high surrogate"));
+                                }
+                            } else if (0xDC00..0xE000).contains(&hi) {
+                                return Err(PErr::Invalid("lone low surrogate"));
+                            } else {
+                                out.push(char::from_u32(hi).unwrap());
+                            }
+                        }
+                        _ => return Err(PErr::Invalid("unknown escape")),
+                    }
+                    seg = self.i;
+                }
+                0..=0x1F => return Err(PErr::Invalid("raw control character in string")),
+                _ => self.i += 1,
+            }
+        }
+    }
+}
+
+struct Parsed {
+    value: J,
+    surrogate_pairs: u32,
+}
+
+fn strict_parse(t: &str) -> Result<Parsed, PErr> {
+    let mut p = SP { t, b: t.as_bytes(), i: 0, surrogate_pairs: 0 };
+    let v = p.value(0)?;
+    p.ws();
+    if p.i != t.len() {
+        return Err(PErr::Invalid("trailing characters"));
+    }
+    Ok(Parsed { value: v, surrogate_pairs: p.surrogate_pairs })
+}
+
+fn json_trim_end(t: &str) -> &str {
+    t.trim_end_matches(|c| c == ' ' || c == '\t' || c == '\n' || c == '\r')
+}
+
+// ------------------------------------------------------------------------------------------
+// renderer
+// ------------------------------------------------------------------------------------------
+
+#[derive(Clone, Copy)]
+struct Style {
+    /// 0 compact, 1 single spaces, 2 pretty (newline + indent), 3 random runs of " \t\n\r"
+    ws: u8,
+    /// per-mille chance to write a printable BMP char as \uXXXX
+    esc_u: u64,
+    /// per-mille chance to write a non-BMP char as a \uD8xx\uDCxx surrogate pair (else raw UTF-8)
+    esc_pair: u64,
+    /// per-mille chance to write '/' as "\/"
+    esc_slash: u64,
+}
+
+const PLAIN: Style = Style { ws: 0, esc_u: 0, esc_pair: 0, esc_slash: 0 };
+
+fn put_ws(rng: &mut Rng, st: &Style, out: &mut String, depth: usize, newline_ok: bool) {
+    match st.ws {
+        0 => {}
+        1 => {
+            if rng.chance(1, 2) {
+                out.push(' ')
+            }
+        }
+        2 => {
+            if newline_ok {
+                out.push('\n');
+                for _ in 0..depth {
+                    out.push_str("  ")
+                }
+            } else {
+                out.push(' ')
+            }
+        }
+        _ => {
+            for _ in 0..rng.below(4) {
+                out.push(*rng.pick(&[' ', ' ', '\t', '\n', '\r']))
+            }
+        }
+    }
+}
+
+fn put_u(rng: &mut Rng, out: &mut String, u: u32) {
+    let s = match rng.below(3) {
+        0 => format!("\\u{:04x}", u),
+        1 => format!("\\u{:04X}", u),
+        _ => {
+            // mixed case
+            let l = format!("{:04x}", u);
+            let mut m = String::from("\\u");
+            for ch in l.chars() {
+                if rng.chance(1, 2) {
+                    m.push(ch.to_ascii_uppercase())
+                } else {
+                    m.push(ch)
+                }
+            }
+            m
+        }
+    };
+    out.push_str(&s);
+}
+
+fn render_str(s: &str, rng: &mut Rng, st: &Style, out: &mut String) {
+    out.push('"');
+    if st.esc_u == 0 && st.esc_pair == 0 && st.esc_slash == 0 && s.len() > 4096 {
+        // fast path for very long strings
+        for c in s.chars() {
+            match c {
+                '"' => out.push_str("\\\""),
+                '\\' => out.push_str("\\\\"),
+                c if (c as u32) < 0x20 => out.push_str(&format!("\\u{:04x}", c as u32)),
+                c => out.push(c),
+            }
+        }
+        out.push('"');
+        return;
+    }
+    for c in s.chars() {
+        let u = c as u32;
+        match c {
+            '"' => {
+                if rng.chance(1, 8) {
+                    put_u(rng, out, u)
+                } else {
+                    out.push_str("\\\"")
+                }
+            }
+            '\\' => {
+                if rng.chance(1, 8) {
+                    put_u(rng, out, u)
+                } else {
+                    out.push_str("\\\\")
+                }
+            }
+            '\u{8}' | '\u{c}' | '\n' | '\r' | '\t' if rng.chance(2, 3) => out.push_str(match c {
+                '\u{8}' => "\\b",
+                '\u{c}' => "\\f",
+                '\n' => "\\n",
+                '\r' => "\\r",
+                _ => "\\t",
+            }),
+            _ if u < 0x20 => put_u(rng, out, u),
+            '/' if rng.below(1000) < st.esc_slash => out.push_str("\\/"),
+            _ if u > 0xFFFF => {
+                if rng.below(1000) < st.esc_pair {
+                    let v = u - 0x10000;
+                    put_u(rng, out, 0xD800 + (v >> 10));
+                    put_u(rng, out, 0xDC00 + (v & 0x3FF));
+                } else {
+                    out.push(c)
+                }
+            }
+            _ => {
+                if st.esc_u > 0 && rng.below(1000) < st.esc_u {
+                    put_u(rng, out, u)
+                } else {
+                    out.push(c)
+                }
+            }
+        }
+    }
+    out.push('"');
+}
+
+fn render(j: &J, rng: &mut Rng, st: &Style, out: &mut String, depth: usize) {
+    match j {
+        J::Null => out.push_str("null"),
+        J::Bool(true) => out.push_str("true"),
+        J::Bool(false) => out.push_str("false"),
+        J::Num(v, Some(t)) => {
+            let _ = v;
+            out.push_str(t)
+        }
+        J::Num(v, None) => out.push_str(&format!("{:?}", v)),
+        J::Str(s) => render_str(s, rng, st, out),
+        J::Arr(x) => {
+            out.push('[');
+            for (i, e) in x.iter().enumerate() {
+                if i > 0 {
+                    put_ws(rng, st, out, depth, false);
+                    out.push(',');
+                }
+                put_ws(rng, st, out, depth + 1, true);
+                render(e, rng, st, out, depth + 1);
+            }
+            put_ws(rng, st, out, depth, !x.is_empty());
+            out.push(']');
+        }
+        J::Obj(x) => {
+            out.push('{');
+            for (i, (k, v)) in x.iter().enumerate() {
+                if i > 0 {
+                    put_ws(rng, st, out, depth, false);
+                    out.push(',');
+                }
+                put_ws(rng, st, out, depth + 1, true);
+                render_str(k, rng, st, out);
+                put_ws(rng, st, out, depth, false);
+                out.push(':');
+                put_ws(rng, st, out, depth, false);
+                render(v, rng, st, out, depth + 1);
+            }
+            put_ws(rng, st, out, depth, !x.is_empty());
+            out.push('}');
+        }
+    }
+}
+
+fn render_doc(j: &J, rng: &mut Rng, st: &Style) -> String {
+    let mut out = String::new();
+    put_ws(rng, st, &mut out, 0, false);
+    render(j, rng, st, &mut out, 0);
+    put_ws(rng, st, &mut out, 0, false);
+    out
+}
+
+// ------------------------------------------------------------------------------------------
+// generator
+// ------------------------------------------------------------------------------------------
+
+const KEY_POOL: &[&str] = &[
+    "a", "b", "c", "id", "name", "k1", "k10", "k2", "", "A", "é", "key with space", "\"q\"", "a\\b", "\u{1F600}", "z", "aa", "ab", "a\u{0}",
+    "a/b", "0", "1", "ключ", "キー", "\u{FFFF}", "\u{10000}", "aaa", "aab", "~",
+];
+
+const SPECIAL_CHARS: &[char] = &[
+    '"', '\\', '/', '\u{0}', '\u{1}', '\u{8}', '\u{c}', '\n', '\r', '\t', '\u{1f}', ' ', '\u{7f}', '\u{80}', '\u{9f}', '\u{a0}', 'é', 'ß', 'Ω', 'ж',
+    '中', '日', '\u{0301}', '\u{200b}', '\u{2028}', '\u{2029}', '\u{d7ff}', '\u{e000}', '\u{fffd}', '\u{fffe}', '\u{ffff}', '\u{10000}', '\u{1F600}',
+    '\u{1F468}', '\u{10FFFF}', '\u{1D11E}', '{', '}', '[', ']', ':', ',', 'u', 'n',
+];
+
+struct Gen<'r> {
+    rng: &'r mut Rng,
+    budget: i64,
+    max_depth: usize,
+}
+
+impl<'r> Gen<'r> {
+    fn gen_char(&mut self) -> char {
+        match self.rng.below(10) {
+            0..=4 => (b'a' + self.rng.below(26) as u8) as char,
+            5 => (b'0' + self.rng.below(10) as u8) as char,
+            6 => (0x20 + self.rng.below(0x5f) as u8) as char,
+            7 | 8 => *self.rng.pick(SPECIAL_CHARS),
+            _ => loop {
+                // any scalar value, biased to the BMP
+                let u = if self.rng.chance(3, 4) { self.rng.below(0x10000) as u32 } else { self.rng.below(0x110000) as u32 };
+                if let Some(c) = char::from_u32(u) {
+                    break c;
+                }
+            },
+        }
+    }
+    fn gen_string(&mut self) -> String {
+        let n = match self.rng.below(20) {
+            0 | 1 => 0,
+            2..=14 => self.rng.usize(1, 8),
+            15..=18 => self.rng.usize(9, 40),
+            _ => self.rng.usize(41, 300),
+        };
+        (0..n).map(|_| self.gen_char()).collect()
+    }
+    fn gen_key(&mut self) -> String {
+        match self.rng.below(10) {
+            0..=5 => self.rng.pick(KEY_POOL).to_string(),
+            6 | 7 => format!("k{}", self.rng.below(50)),
+            _ => self.gen_string(),
+        }
+    }
+    fn gen_number(&mut self) -> J {
+        let r = &mut *self.rng;
+        let text: String = match r.below(12) {
+            0 => (*r.pick(&["0", "-0", "1", "-1", "0.0", "-0.0", "0e0", "0E+0", "-0e-0", "10", "0.5", "-0.1"])).to_string(),
+            1 => format!("{}", r.range(-1000, 1000)),
+            2 => format!("{}", r.next() as i64 >> r.below(64)),
+            3 => {
+                // long digit strings (beyond 2^64)
+                let n = r.usize(18, 40);
+                let mut s = String::new();
+                if r.chance(1, 2) {
+                    s.push('-')
+                }
+                s.push((b'1' + r.below(9) as u8) as char);
+                for _ in 1..n {
+                    s.push((b'0' + r.below(10) as u8) as char)
+                }
+                s
+            }
+            4 | 5 => {
+                // int.frac
+                let mut s = String::new();
+                if r.chance(1, 3) {
+                    s.push('-')
+                }
+                if r.chance(1, 3) {
+                    s.push('0')
+                } else {
+                    s.push_str(&format!("{}", r.below(1_000_000) + 1))
+                }
+                s.push('.');
+                for _ in 0..r.usize(1, 20) {
+                    s.push((b'0' + r.below(10) as u8) as char)
+                }
+                s
+            }
+            6 | 7 => {
+                // mantissa with exponent in every spelling
+                let mut s = String::new();
+                if r.chance(1, 3) {
+                    s.push('-')
+                }
+                s.push_str(&format!("{}", r.below(10_000)));
+                if r.chance(1, 2) {
+                    s.push('.');
+                    for _ in 0..r.usize(1, 17) {
+                        s.push((b'0' + r.below(10) as u8) as char)
+                    }
+                }
+                s.push(if r.chance(1, 2) { 'e' } else { 'E' });
+                let e = if r.chance(1, 4) { r.range(-330, 300) } else { r.range(-30, 30) };
+                if e < 0 {
+                    s.push('-')
+                } else if r.chance(1, 2) {
+                    s.push('+')
+                }
+                if r.chance(1, 6) {
+                    s.push_str("00")
+                }
+                s.push_str(&format!("{}", e.abs()));
+                s
+            }
+            8 | 9 => {
+                // arbitrary finite f64 in shortest round-trip spellings
+                let v = loop {
+                    let v = f64::from_bits(r.next());
+                    if v.is_finite() {
+                        break v;
+                    }
+                };
+                let t = match r.below(3) {
+                    0 => format!("{:?}", v),
+                    1 => format!("{:e}", v),
+                    _ => format!("{:E}", v),
+                };
+                // the std guarantees these spellings parse back to the same bits
+                assert_eq!(t.parse::<f64>().unwrap().to_bits(), v.to_bits(), "harness: std float round trip");
+                t
+            }
+            10 => (*r.pick(&[
+                "1.7976931348623157e308",
+                "-1.7976931348623157E+308",
+                "5e-324",
+                "4.9406564584124654e-324",
+                "2.2250738585072014e-308",
+                "2.2250738585072011e-308",
+                "9007199254740993",
+                "9007199254740992",
+                "-9223372036854775808",
+                "18446744073709551615",
+                "0.1",
+                "1e-400",
+                "0.30000000000000004",
+                "123456789012345678901234567890",
+                "1E0",
+                "1e+007",
+            ]))
+            .to_string(),
+            _ => format!("{}", r.range(-9, 9)),
+        };
+        let v: f64 = text.parse().expect("harness: generated number must parse");
+        if !v.is_finite() {
+            return J::Num(1.0, Some("1".into()));
+        }
+        J::Num(v, Some(text))
+    }
+    fn gen_scalar(&mut self) -> J {
+        match self.rng.below(10) {
+            0 => J::Null,
+            1 => J::Bool(self.rng.chance(1, 2)),
+            2..=5 => self.gen_number(),
+            _ => J::Str(self.gen_string()),
+        }
+    }
+    fn gen_value(&mut self, depth: usize, want_container: bool) -> J {
+        self.budget -= 1;
+        let can_nest = depth < self.max_depth && self.budget > 0;
+        let k = self.rng.below(100);
+        if !can_nest || (!want_container && k < 55) {
+            return self.gen_scalar();
+        }
+        let n = match self.rng.below(20) {
+            0 | 1 => 0,
+            2..=15 => self.rng.usize(1, 5),
+            16..=18 => self.rng.usize(6, 12),
+            _ => self.rng.usize(13, 30),
+        };
+        // sometimes force a narrow deep chain so depth 8 is reached often
+        let chain = self.rng.chance(1, 5);
+        let n = if chain { n.min(2).max(1) } else { n };
+        if k % 2 == 0 {
+            J::Arr((0..n).map(|_| self.gen_value(depth + 1, chain)).collect())
+        } else {
+            let mut pairs: Vec<(String, J)> = vec![];
+            for _ in 0..n {
+                let key = self.gen_key();
+                let v = self.gen_value(depth + 1, chain);
+                pairs.push((key, v));
+            }
+            if !pairs.is_empty() && self.rng.chance(3, 20) {
+                // explicit duplicate (possibly a different value type)
+                let key = pairs[self.rng.below(pairs.len() as u64) as usize].0.clone();
+                let v = self.gen_value(depth + 1, false);
+                let at = self.rng.usize(0, pairs.len());
+                pairs.insert(at, (key, v));
+            }
+            match self.rng.below(10) {
+                0 => pairs.sort_by(|a, b| a.0.cmp(&b.0)),
+                1 => pairs.sort_by(|a, b| b.0.cmp(&a.0)),
+                _ => {}
+            }
+            J::Obj(pairs)
+        }
+    }
+}
+
+fn gen_doc(rng: &mut Rng, small: bool) -> J {
+    let budget = if small { 12 } else { *rng.pick(&[6i64, 20, 20, 40, 40, 80, 200]) };
+    let max_depth = if rng.chance(1, 3) { 8 } else { rng.usize(1, 8) };
+    let root_container = rng.chance(4, 5);
+    let mut g = Gen { rng, budget, max_depth };
+    g.gen_value(0, root_container)
+}
+
+/// object with many keys (binary search depth, shared prefixes, unsorted, a few duplicates)
+fn gen_many_keys(rng: &mut Rng, n: usize) -> J {
+    let mut pairs = Vec::with_capacity(n);
+    let style = rng.below(3);
+    for i in 0..n {
+        let k = match style {
+            0 => format!("k{}", rng.below(n as u64 * 4)),
+            1 => format!("{}{}", "p".repeat(rng.usize(0, 6)), rng.below(n as u64 * 2)),
+            _ => format!("key_{:05}", (i * 7919) % (n + 13)),
+        };
+        let v = match rng.below(4) {
+            0 => J::Num(i as f64, Some(format!("{}", i))),
+            1 => J::Str(format!("v{}", i)),
+            2 => J::Arr(vec![J::Num(i as f64, None), J::Null]),
+            _ => J::Obj(vec![("i".into(), J::Num(i as f64, None))]),
+        };
+        pairs.push((k, v));
+    }
+    let doc = J::Obj(pairs);
+    if rng.chance(1, 3) {
+        J::Arr(vec![J::Bool(true), doc])
+    } else {
+        doc
+    }
+}
+
+fn long_text(rng: &mut Rng, bytes: usize) -> String {
+    // mixed ASCII / 2- / 3- / 4-byte characters, exact byte length
+    let mut s = String::with_capacity(bytes + 4);
+    let multi = rng.chance(1, 2);
+    while s.len() < bytes {
+        let left = bytes - s.len();
+        let c = if multi && left >= 4 && rng.chance(1, 4) {
+            *rng.pick(&['é', '中', '\u{1F600}', 'ж'])
+        } else {
+            (b'a' + rng.below(26) as u8) as char
+        };
+        if c.len_utf8() <= left {
+            s.push(c)
+        }
+    }
+    s
+}
+
+/// strings and keys around the 65 535-byte boundary, at the root and nested
+fn gen_long(rng: &mut Rng) -> J {
+    let len = *rng.pick(&[65_534usize, 65_535, 65_536, 65_537, 65_540, 66_000, 70_000, 131_075]);
+    let s = long_text(rng, len);
+    match rng.below(5) {
+        0 => J::Str(s),
+        1 => J::Arr(vec![J::Num(1.0, None), J::Str(s), J::Str("after".into())]),
+        2 => J::Obj(vec![("b".into(), J::Str(s)), ("a".into(), J::Num(1.0, None)), ("c".into(), J::Str("after".into()))]),
+        3 => J::Obj(vec![("m".into(), J::Num(2.0, None)), (s, J::Num(1.0, None)), ("zz".into(), J::Str("after".into())), ("a".into(), J::Bool(true))]),
+        _ => J::Arr(vec![J::Obj(vec![("x".into(), J::Arr(vec![J::Str(s)]))])]),
+    }
+}
+
+// ------------------------------------------------------------------------------------------
+// JSONB view vs model
+// ------------------------------------------------------------------------------------------
+
+#[derive(Debug)]
+struct Mis {
+    /// concrete cause, goes into the violation signature
+    kind: String,
+    path: String,
+    detail: String,
+}
+
+type R = Result<(), Mis>;
+
+#[derive(Clone, Copy, Debug)]
+enum Seg<'m> {
+    K(&'m str),
+    I(usize),
+    T(&'static str),
+}
+
+fn mis(kind: &str, path: &[Seg], detail: String) -> Mis {
+    let mut d = detail;
+    if d.len() > 400 {
+        let mut cut = 400;
+        while !d.is_char_boundary(cut) {
+            cut -= 1;
+        }
+        d.truncate(cut);
+        d.push_str("...");
+    }
+    let mut p = String::new();
+    for s in path {
+        p.push('/');
+        match s {
+            Seg::K(k) => p.push_str(&short_key(k)),
+            Seg::I(i) => p.push_str(&i.to_string()),
+            Seg::T(t) => p.push_str(t),
+        }
+    }
+    Mis { kind: kind.to_string(), path: p, detail: d }
+}
+
+fn is_long_str(m: &J) -> bool {
+    matches!(m, J::Str(s) if s.len() > U16_MAX_LEN)
+}
+
+fn vname(v: &JsonbValue) -> &'static str {
+    match v {
+        JsonbValue::Null => "null",
+        JsonbValue::Bool(_) => "bool",
+        JsonbValue::Number(_) => "number",
+        JsonbValue::String(_) => "string",
+        JsonbValue::Array(_) => "array",
+        JsonbValue::Object(_) => "object",
+    }
+}
+
+#[derive(Default)]
+struct Stats {
+    key_lookups: u64,
+    absent_probes: u64,
+    index_lookups: u64,
+    paths: u64,
+    paths_hit: u64,
+    dup_key_lookups: u64,
+    owned_api: u64,
+}
+
+struct Cmp<'r> {
+    rng: &'r mut Rng,
+    st: &'r mut Stats,
+    /// any object of the document has a key longer than 65 535 bytes (path checks attribute to it)
+    doc_long_key: bool,
+}
+
+fn short_key(k: &str) -> String {
+    if k.len() > 24 {
+        let mut cut = 24;
+        while !k.is_char_boundary(cut) {
+            cut -= 1;
+        }
+        format!("{}..({}B)", &k[..cut], k.len())
+    } else {
+        k.to_string()
+    }
+}
+
+impl<'r> Cmp<'r> {
+    fn val<'m>(&mut self, v: &JsonbValue, m: &'m J, path: &mut Vec<Seg<'m>>, deep: bool) -> R {
+        match (v, m) {
+            (JsonbValue::Null, J::Null) => Ok(()),
+            (JsonbValue::Bool(a), J::Bool(b)) if a == b => Ok(()),
+            (JsonbValue::Number(a), J::Num(b, _)) if a == b => Ok(()),
+            (JsonbValue::String(a), J::Str(b)) if *a == b.as_str() => Ok(()),
+            (JsonbValue::Array(view), J::Arr(items)) => self.arr(view, items, path, deep),
+            (JsonbValue::Object(view), J::Obj(pairs)) => self.obj(view, pairs, path, deep),
+            _ => {
+                let kind = if is_long_str(m) {
+                    "string_over_65535_bytes".to_string()
+                } else if vname(v) == tname(m) {
+                    format!("value_differs/{}", tname(m))
+                } else {
+                    format!("type_differs/{}_read_as_{}", tname(m), vname(v))
+                };
+                let md = match m {
+                    J::Str(s) => format!("string of {} bytes: {:?}", s.len(), short_key(s)),
+                    J::Num(x, t) => format!("number {:?} (text {:?})", x, t),
+                    o => tname(o).to_string(),
+                };
+                let vd = match v {
+                    JsonbValue::String(s) => format!("string of {} bytes: {:?}", s.len(), short_key(s)),
+                    o => format!("{:?}", o).chars().take(120).collect(),
+                };
+                Err(mis(&kind, path, format!("model {} ; read back {}", md, vd)))
+            }
+        }
+    }
+
+    fn arr<'m>(&mut self, view: &JsonbView, items: &'m [J], path: &mut Vec<Seg<'m>>, deep: bool) -> R {
+        let n = view.array_len().map_err(|e| mis("err/array_len", path, e.to_string()))?;
+        if n != items.len() {
+            return Err(mis("array_len", path, format!("model {} elements, array_len {}", items.len(), n)));
+        }
+        if !deep {
+            return Ok(());
+        }
+        let mut it = view.iter_array().map_err(|e| mis("err/iter_array", path, e.to_string()))?;
+        for (i, item) in items.iter().enumerate() {
+            self.st.index_lookups += 1;
+            path.push(Seg::I(i));
+            let got = view.array_get(i);
+            let from_iter = it.next();
+            match got {
+                Err(e) => {
+                    let k = if is_long_str(item) { "string_over_65535_bytes" } else { "err/array_get" };
+                    return Err(mis(k, path, e.to_string()));
+                }
+                Ok(None) => return Err(mis("array_get_none_inside_bounds", path, format!("len {}", n))),
+                Ok(Some(v)) => {
+                    self.val(&v, item, path, true)?;
+                    match from_iter {
+                        Some(Ok(w)) if w == v => {}
+                        other => return Err(mis("iter_array_differs_from_array_get", path, format!("{:?}", other.map(|r| r.map_err(|e| e.to_string()))))),
+                    }
+                }
+            }
+            path.pop();
+        }
+        if it.next().is_some() {
+            return Err(mis("iter_array_too_long", path, String::new()));
+        }
+        for idx in [n, n + 1 + self.rng.below(1000) as usize, usize::MAX] {
+            match view.array_get(idx) {
+                Ok(None) => {}
+                other => return Err(mis("array_get_past_end", path, format!("idx {} -> {:?}", idx, other.map_err(|e| e.to_string())))),
+            }
+        }
+        Ok(())
+    }
+
+    fn obj<'m>(&mut self, view: &JsonbView, pairs: &'m [(String, J)], path: &mut Vec<Seg<'m>>, deep: bool) -> R {
+        let g = group(pairs);
+        let long_key = pairs.iter().any(|(k, _)| k.len() > U16_MAX_LEN);
+        let fk = |k: &str| if long_key { "key_over_65535_bytes".to_string() } else { k.to_string() };
+        let n = view.object_len().map_err(|e| mis(&fk("err/object_len"), path, e.to_string()))?;
+        let ok_len = if g.len() == pairs.len() { n == pairs.len() } else { n >= g.len() && n <= pairs.len() };
+        if !ok_len {
+            return Err(mis(&fk("object_len"), path, format!("model {} pairs / {} distinct keys, object_len {}", pairs.len(), g.len(), n)));
+        }
+        if !deep {
+            return Ok(());
+        }
+        // every key looked up yields its value
+        let mut keys: Vec<&str> = g.keys().copied().collect();
+        keys.sort_unstable();
+        for k in &keys {
+            let cands = &g[k];
+            self.st.key_lookups += 1;
+            path.push(Seg::K(k));
+            match view.get(k) {
+                Err(e) => {
+                    let kind = if cands.iter().any(|c| is_long_str(c)) && !long_key { "string_over_65535_bytes".to_string() } else { fk("err/get") };
+                    return Err(mis(&kind, path, e.to_string()));
+                }
+                Ok(None) => return Err(mis(&fk("get_existing_key_none"), path, format!("object has {} pairs", pairs.len()))),
+                Ok(Some(v)) => {
+                    if cands.len() == 1 {
+                        self.val(&v, cands[0], path, true).map_err(|mut e| {
+                            if long_key {
+                                e.kind = "key_over_65535_bytes".into()
+                            }
+                            e
+                        })?;
+                    } else {
+                        self.st.dup_key_lookups += 1;
+                        let mut any = false;
+                        let l = path.len();
+                        for c in cands.iter() {
+                            let ok = self.val(&v, c, path, true).is_ok();
+                            path.truncate(l);
+                            if ok {
+                                any = true;
+                                break;
+                            }
+                        }
+                        if !any {
+                            return Err(mis(&fk("dup_key_value_not_among_given"), path, format!("{} candidates; read back {}", cands.len(), vname(&v))));
+                        }
+                    }
+                }
+            }
+            path.pop();
+        }
+        // absent keys yield None
+        let mut probes: Vec<String> = vec![String::new(), "\u{10FFFF}\u{10FFFF}".into()];
+        for _ in 0..1.min(keys.len()) {
+            let k = *self.rng.pick(&keys);
+            probes.push(format!("{}\u{0}", k));
+            probes.push(format!("{}a", k));
+            let mut p = k.to_string();
+            p.pop();
+            probes.push(p);
+            let mut q: Vec<char> = k.chars().collect();
+            if let Some(l) = q.last_mut() {
+                *l = char::from_u32(*l as u32 + 1).unwrap_or('x');
+            }
+            probes.push(q.into_iter().collect());
+        }
+        for p in probes {
+            if g.contains_key(p.as_str()) {
+                continue;
+            }
+            self.st.absent_probes += 1;
+            match view.get(&p) {
+                Ok(None) => {}
+                other => {
+                    path.push(Seg::T("<absent key probe>"));
+                    return Err(mis(&fk("get_absent_key_found"), path, format!("probe {:?} -> {:?}", short_key(&p), other.map_err(|e| e.to_string())).chars().take(240).collect()));
+                }
+            }
+        }
+        // iteration: exactly the model's keys, each value one of the values given for it, sorted
+        let mut seen: HashMap<&str, u32> = HashMap::with_capacity(g.len());
+        let mut count = 0usize;
+        let mut prev: Option<&str> = None;
+        for item in view.iter_object().map_err(|e| mis(&fk("err/iter_object"), path, e.to_string()))? {
+            let (k, v) = match item {
+                Ok(x) => x,
+                Err(e) => {
+                    let kind = if pairs.iter().any(|(_, v)| is_long_str(v)) && !long_key { "string_over_65535_bytes".to_string() } else { fk("err/iter_object_item") };
+                    return Err(mis(&kind, path, e.to_string()));
+                }
+            };
+            count += 1;
+            let (mk, cands) = match g.get_key_value(k) {
+                Some(x) => x,
+                None => return Err(mis(&fk("iter_object_unknown_key"), path, short_key(k))),
+            };
+            *seen.entry(*mk).or_insert(0) += 1;
+            if let Some(p) = prev {
+                if p > k {
+                    return Err(mis(&fk("iter_object_keys_not_sorted"), path, format!("{:?} before {:?}", short_key(p), short_key(k))));
+                }
+            }
+            prev = Some(*mk);
+            path.push(Seg::K(*mk));
+            let mut any = false;
+            let l = path.len();
+            for c in cands.iter() {
+                // shallow for nested containers: they were compared deeply through get()
+                let ok = self.val(&v, c, path, false).is_ok();
+                path.truncate(l);
+                if ok {
+                    any = true;
+                    break;
+                }
+            }
+            if !any {
+                let kind = if cands.iter().any(|c| is_long_str(c)) && !long_key { "string_over_65535_bytes".to_string() } else { fk("iter_object_value_differs") };
+                return Err(mis(&kind, path, format!("read back {}", vname(&v))));
+            }
+            path.pop();
+        }
+        if count != n || seen.len() != g.len() {
+            return Err(mis(&fk("iter_object_key_set"), path, format!("iterated {} pairs / {} distinct, object_len {}, model distinct {}", count, seen.len(), n, g.len())));
+        }
+        // path lookup == stepwise lookup == model
+        let npaths = if pairs.is_empty() { 1 } else { 2 };
+        for _ in 0..npaths {
+            self.path_check(view, pairs, path)?;
+        }
+        Ok(())
+    }
+
+    fn path_check<'m>(&mut self, view: &JsonbView, pairs: &'m [(String, J)], at: &mut Vec<Seg<'m>>) -> R {
+        // random walk through nested objects; sometimes an absent key, sometimes one step too many
+        let mut steps: Vec<String> = vec![];
+        let mut cur: Option<&[(String, J)]> = Some(pairs);
+        while let Some(ps) = cur {
+            if ps.is_empty() || self.rng.chance(1, 10) {
+                steps.push(if self.rng.chance(1, 2) { "nope".into() } else { "0".into() });
+                break;
+            }
+            let (k, v) = &ps[self.rng.below(ps.len() as u64) as usize];
+            steps.push(k.clone());
+            cur = match v {
+                J::Obj(n) if steps.len() < 8 && self.rng.chance(4, 5) => Some(n.as_slice()),
+                _ => None,
+            };
+        }
+        if self.rng.chance(1, 6) {
+            steps.push(self.rng.pick(KEY_POOL).to_string());
+        }
+        let p: Vec<&str> = steps.iter().map(|s| s.as_str()).collect();
+        self.st.paths += 1;
+        let lk = self.doc_long_key;
+        let fk = |k: &str| if lk { "key_over_65535_bytes".to_string() } else { k.to_string() };
+        // model expectation
+        enum Exp<'m> {
+            Val(&'m J),
+            Missing,
+            Unknown,
+        }
+        let mut exp = Exp::Unknown;
+        {
+            let mut node: Option<&J> = None;
+            let mut level: Option<&[(String, J)]> = Some(pairs);
+            let mut decided = false;
+            for k in &p {
+                let ps = match level {
+                    Some(ps) => ps,
+                    None => {
+                        exp = Exp::Missing;
+                        decided = true;
+                        break;
+                    }
+                };
+                let c: Vec<&J> = ps.iter().filter(|(kk, _)| kk == k).map(|(_, v)| v).collect();
+                match c.len() {
+                    0 => {
+                        exp = Exp::Missing;
+                        decided = true;
+                        break;
+                    }
+                    1 => {
+                        node = Some(c[0]);
+                        level = match c[0] {
+                            J::Obj(n) => Some(n.as_slice()),
+                            _ => None,
+                        };
+                    }
+                    _ => {
+                        exp = Exp::Unknown;
+                        decided = true;
+                        break;
+                    }
+                }
+            }
+            if !decided {
+                if let Some(n) = node {
+                    exp = Exp::Val(n)
+                }
+            }
+        }
+        let by_path = view.get_path(&p);
+        // stepwise
+        let stepwise = (|| -> eyre::Result<Option<JsonbValue>> {
+            let mut curv: Option<JsonbValue> = Some(JsonbValue::Object(*view));
+            for k in &p {
+                curv = match curv {
+                    Some(JsonbValue::Object(v)) => v.get(k)?,
+                    _ => None,
+                };
+            }
+            Ok(curv)
+        })();
+        at.push(Seg::T("<get_path>"));
+        let full = at;
+        let steps_d = format!("path {:?}: ", steps.iter().map(|s| short_key(s)).collect::<Vec<_>>());
+        match (&by_path, &stepwise) {
+            (Ok(a), Ok(b)) if a == b => {}
+            (Err(_), Err(_)) => {}
+            _ => {
+                return Err(mis(
+                    &fk("get_path_differs_from_stepwise_get"),
+                    full,
+                    format!("{}get_path {:?} ; stepwise {:?}", steps_d, by_path.as_ref().map(|o| o.as_ref().map(vname)).map_err(|e| e.to_string()), stepwise.as_ref().map(|o| o.as_ref().map(vname)).map_err(|e| e.to_string())),
+                ))
+            }
+        }
+        match exp {
+            Exp::Unknown => {}
+            Exp::Missing => match by_path {
+                Ok(None) => {}
+                other => return Err(mis(&fk("get_path_absent_found"), full, format!("{}{:?}", steps_d, other.map(|o| o.as_ref().map(vname)).map_err(|e| e.to_string())))),
+            },
+            Exp::Val(m) => match by_path {
+                Ok(Some(v)) => {
+                    self.st.paths_hit += 1;
+                    self.val(&v, m, full, false).map_err(|mut e| {
+                        if lk {
+                            e.kind = "key_over_65535_bytes".into()
+                        }
+                        e.kind = format!("get_path/{}", e.kind);
+                        e
+                    })?
+                }
+                Ok(None) => return Err(mis(&fk("get_path_existing_none"), full, steps_d)),
+                Err(e) => {
+                    let kind = if is_long_str(m) && !lk { "string_over_65535_bytes".to_string() } else { fk("err/get_path") };
+                    return Err(mis(&kind, full, format!("{}{}", steps_d, e)));
+                }
+            },
+        }
+        full.pop();
+        Ok(())
+    }
+
+    /// `OwnedValue::jsonb_get / jsonb_get_path / jsonb_array_get` on the root
+    fn owned_api<'m>(&mut self, bytes: &[u8], m: &'m J) -> R {
+        let ov = OwnedValue::Jsonb(bytes.to_vec());
+        let mut path: Vec<Seg<'m>> = vec![Seg::T("<OwnedValue>")];
+        let lk = self.doc_long_key;
+        let fk = |k: &str| if lk { "key_over_65535_bytes".to_string() } else { k.to_string() };
+        match m {
+            J::Obj(pairs) => {
+                let g = group(pairs);
+                for _ in 0..3.min(pairs.len()) {
+                    let k = pairs[self.rng.below(pairs.len() as u64) as usize].0.as_str();
+                    let cands = &g[k];
+                    self.st.owned_api += 1;
+                    path.push(Seg::K(k));
+                    let a = ov.jsonb_get(k);
+                    let b = ov.jsonb_get_path(&[k]);
+                    match (&a, &b) {
+                        (Ok(x), Ok(y)) if x == y => {}
+                        (Err(_), Err(_)) => {}
+                        _ => return Err(mis(&fk("owned/jsonb_get_path_differs_from_jsonb_get"), &path, format!("{:?} vs {:?}", a.is_ok(), b.is_ok()))),
+                    }
+                    match a {
+                        Ok(Some(o)) => {
+                            let mut any = false;
+                            let mut last = None;
+                            let l = path.len();
+                            for c in cands.iter() {
+                                let r = self.owned(&o, c, &mut path);
+                                path.truncate(l);
+                                match r {
+                                    Ok(()) => {
+                                        any = true;
+                                        break;
+                                    }
+                                    Err(e) => last = Some(e),
+                                }
+                            }
+                            if !any {
+                                let mut e = last.unwrap();
+                                e.kind = format!("owned/{}", if lk { "key_over_65535_bytes" } else { e.kind.as_str() });
+                                return Err(e);
+                            }
+                        }
+                        Ok(None) => return Err(mis(&fk("owned/jsonb_get_existing_key_none"), &path, String::new())),
+                        Err(e) => {
+                            let kind = if cands.iter().any(|c| is_long_str(c)) && !lk { "string_over_65535_bytes".to_string() } else { fk("owned/err/jsonb_get") };
+                            return Err(mis(&kind, &path, e.to_string()));
+                        }
+                    }
+                    path.pop();
+                }
+                if !g.contains_key("no such key") {
+                    match ov.jsonb_get("no such key") {
+                        Ok(None) => {}
+                        other => return Err(mis(&fk("owned/jsonb_get_absent_found"), &path, format!("{:?}", other.map_err(|e| e.to_string())).chars().take(200).collect())),
+                    }
+                }
+            }
+            J::Arr(items) => {
+                for _ in 0..3.min(items.len()) {
+                    let i = self.rng.below(items.len() as u64) as usize;
+                    self.st.owned_api += 1;
+                    path.push(Seg::I(i));
+                    match ov.jsonb_array_get(i) {
+                        Ok(Some(o)) => self.owned(&o, &items[i], &mut path).map_err(|mut e| {
+                            e.kind = format!("owned/{}", e.kind);
+                            e
+                        })?,
+                        Ok(None) => return Err(mis("owned/jsonb_array_get_none_inside_bounds", &path, String::new())),
+                        Err(e) => {
+                            let kind = if is_long_str(&items[i]) { "string_over_65535_bytes" } else { "owned/err/jsonb_array_get" };
+                            return Err(mis(kind, &path, e.to_string()));
+                        }
+                    }
+                    path.pop();
+                }
+                match ov.jsonb_array_get(items.len()) {
+                    Ok(None) => {}
+                    other => return Err(mis("owned/jsonb_array_get_past_end", &path, format!("{:?}", other.map_err(|e| e.to_string())).chars().take(200).collect())),
+                }
+            }
+            _ => {}
+        }
+        Ok(())
+    }
+
+    fn owned<'m>(&mut self, o: &OwnedValue, m: &'m J, path: &mut Vec<Seg<'m>>) -> R {
+        match (o, m) {
+            (OwnedValue::Null, J::Null) => Ok(()),
+            (OwnedValue::Bool(a), J::Bool(b)) if a == b => Ok(()),
+            (OwnedValue::Float(a), J::Num(b, _)) if a == b => Ok(()),
+            (OwnedValue::Text(a), J::Str(b)) if a == b => Ok(()),
+            (OwnedValue::Jsonb(b), J::Arr(_)) | (OwnedValue::Jsonb(b), J::Obj(_)) => {
+                let view = JsonbView::new(b).map_err(|e| mis("err/JsonbView::new", path, e.to_string()))?;
+                let v = view.as_value().map_err(|e| mis("err/as_value", path, e.to_string()))?;
+                self.val(&v, m, path, true)
+            }
+            _ => {
+                let kind = if is_long_str(m) { "string_over_65535_bytes".to_string() } else { format!("value_differs/{}", tname(m)) };
+                Err(mis(&kind, path, format!("model {} ; OwnedValue {}", tname(m), format!("{:?}", o).chars().take(80).collect::<String>())))
+            }
+        }
+    }
+}
+
+// ------------------------------------------------------------------------------------------
+// driving TurDB
+// ------------------------------------------------------------------------------------------
+
+fn conv(v: &JsonValue) -> J {
+    match v {
+        JsonValue::Null => J::Null,
+        JsonValue::Bool(b) => J::Bool(*b),
+        JsonValue::Number(n) => J::Num(*n, None),
+        JsonValue::String(s) => J::Str(s.clone()),
+        JsonValue::Array(x) => J::Arr(x.iter().map(conv).collect()),
+        JsonValue::Object(x) => J::Obj(x.iter().map(|(k, v)| (k.clone(), conv(v))).collect()),
+    }
+}
+
+fn to_bv(v: &JsonValue) -> JsonbBuilderValue {
+    match v {
+        JsonValue::Null => JsonbBuilderValue::Null,
+        JsonValue::Bool(b) => JsonbBuilderValue::Bool(*b),
+        JsonValue::Number(n) => JsonbBuilderValue::Number(*n),
+        JsonValue::String(s) => JsonbBuilderValue::String(s.clone()),
+        JsonValue::Array(x) => JsonbBuilderValue::Array(x.iter().map(to_bv).collect()),
+        JsonValue::Object(x) => JsonbBuilderValue::Object(x.iter().map(|(k, v)| (k.clone(), to_bv(v))).collect()),
+    }
+}
+
+/// the encoder the database itself uses (`JsonbBuilder`), driven the way src/database/convert.rs does
+fn build_with_builder(v: &JsonValue) -> Vec<u8> {
+    match v {
+        JsonValue::Null => JsonbBuilder::new_null().build(),
+        JsonValue::Bool(b) => JsonbBuilder::new_bool(*b).build(),
+        JsonValue::Number(n) => JsonbBuilder::new_number(*n).build(),
+        JsonValue::String(s) => JsonbBuilder::new_string(s.clone()).build(),
+        JsonValue::Array(x) => {
+            let mut b = JsonbBuilder::new_array();
+            for e in x {
+                b.push(to_bv(e));
+            }
+            b.build()
+        }
+        JsonValue::Object(x) => {
+            let mut b = JsonbBuilder::new_object();
+            for (k, e) in x {
+                b.set(k.clone(), to_bv(e));
+            }
+            b.build()
+        }
+    }
+}
+
+/// first difference between TurDB's parse tree and the model (cause for the signature)
+fn jdiff(a: &J, b: &J) -> String {
+    match (a, b) {
+        (J::Arr(x), J::Arr(y)) => {
+            if x.len() != y.len() {
+                return "array_len".into();
+            }
+            for (p, q) in x.iter().zip(y) {
+                if !jeq(p, q) {
+                    return jdiff(p, q);
+                }
+            }
+            "array".into()
+        }
+        (J::Obj(x), J::Obj(y)) => {
+            if x.len() == y.len() {
+                for (p, q) in x.iter().zip(y) {
+                    if p.0 != q.0 {
+                        return "object_key".into();
+                    }
+                    if !jeq(&p.1, &q.1) {
+                        return jdiff(&p.1, &q.1);
+                    }
+                }
+            }
+            "object_pairs".into()
+        }
+        _ if tname(a) == tname(b) => format!("value_differs/{}", tname(b)),
+        _ => format!("type_differs/{}_parsed_as_{}", tname(b), tname(a)),
+    }
+}
+
+fn clip(t: &str, n: usize) -> String {
+    if t.len() <= n {
+        return t.to_string();
+    }
+    let mut cut = n;
+    while !t.is_char_boundary(cut) {
+        cut -= 1;
+    }
+    format!("{}...({} bytes total)", &t[..cut], t.len())
+}
+
+fn err_head(e: &str) -> String {
+    // stable head of an error message: leading words without positions / payload
+    let mut out = String::new();
+    for w in e.split_whitespace().take(3) {
+        let w: String = w.chars().filter(|c| c.is_ascii_alphabetic()).collect();
+        if w.is_empty() {
+            break;
+        }
+        if !out.is_empty() {
+            out.push('_');
+        }
+        out.push_str(&w);
+    }
+    out
+}
+
+/// per-worker recorder with the same surface as `Ctx`; merged into the run's `Ctx` at the end
+struct Sink {
+    evals: u64,
+    counters: std::collections::BTreeMap<String, u64>,
+    nontrivial: std::collections::HashSet<u64>,
+    /// sig -> (assertion, occurrences, first few details)
+    viol: std::collections::BTreeMap<String, (String, u64, Vec<serde_json::Value>)>,
+    samples: Vec<serde_json::Value>,
+    start: std::time::Instant,
+}
+
+impl Sink {
+    fn new() -> Sink {
+        Sink { evals: 0, counters: Default::default(), nontrivial: Default::default(), viol: Default::default(), samples: vec![], start: std::time::Instant::now() }
+    }
+    fn eval(&mut self) {
+        self.evals += 1;
+    }
+    fn count(&mut self, k: &str, n: u64) {
+        if let Some(c) = self.counters.get_mut(k) {
+            *c += n;
+        } else {
+            self.counters.insert(k.to_string(), n);
+        }
+    }
+    fn nontrivial(&mut self, h: u64) {
+        self.nontrivial.insert(h);
+    }
+    fn nontrivial_count(&self) -> usize {
+        self.nontrivial.len()
+    }
+    fn sample(&mut self, v: serde_json::Value) {
+        self.samples.push(v);
+    }
+    fn violation(&mut self, assertion: &str, sig: &str, detail: serde_json::Value) {
+        let e = self.viol.entry(sig.to_string()).or_insert_with(|| (assertion.to_string(), 0, vec![]));
+        e.1 += 1;
+        if e.2.len() < 2 {
+            e.2.push(detail);
+        }
+    }
+    fn merge_into(self, ctx: &mut Ctx, bulk: &mut Vec<(String, String, u64)>) {
+        ctx.evals(self.evals);
+        for (k, n) in self.counters {
+            ctx.count(&k, n);
+        }
+        for h in self.nontrivial {
+            ctx.nontrivial(h);
+        }
+        for v in self.samples {
+            ctx.sample(v);
+        }
+        for (sig, (assertion, n, details)) in self.viol {
+            let kept = details.len() as u64;
+            for d in details {
+                ctx.violation(&assertion, &sig, d);
+            }
+            if n > kept {
+                bulk.push((assertion, sig, n - kept));
+            }
+        }
+    }
+}
+
+struct Env {
+    rng: Rng,
+    st: Stats,
+    lenient: HashMap<&'static str, (u64, String)>,
+    nontrivial_cap: usize,
+    samples_left: usize,
+    /// wall time per phase (seconds): where the run spends its budget
+    phase: [f64; 6],
+}
+
+const PH_GEN: usize = 0;
+const PH_PARSE: usize = 1;
+const PH_ENCODE: usize = 2;
+const PH_VIEW: usize = 3;
+const PH_TOJSON: usize = 4;
+const PH_ORACLE: usize = 5;
+
+/// JSONB bytes -> view / OwnedValue API -> model. Returns false if a violation was recorded.
+fn check_bytes(ctx: &mut Sink, env: &mut Env, bytes: &[u8], model: &J, feat: &Feat, text: &str, encoder: &str, sig_suffix: &str) -> bool {
+    let mut ok = true;
+    let t0 = std::time::Instant::now();
+    let res = {
+        let mut c = Cmp { rng: &mut env.rng, st: &mut env.st, doc_long_key: feat.long_key };
+        catch(|| -> R {
+            let mut path: Vec<Seg> = vec![];
+            let view = JsonbView::new(bytes).map_err(|e| mis("err/JsonbView::new", &path, e.to_string()))?;
+            let v = view.as_value().map_err(|e| mis("err/as_value", &path, e.to_string()))?;
+            c.val(&v, model, &mut path, true)?;
+            match view.get_path(&[]) {
+                Ok(Some(x)) if x == v => {}
+                other => return Err(mis("get_path_empty_is_not_root", &path, format!("{:?}", other.map(|o| o.as_ref().map(vname)).map_err(|e| e.to_string())))),
+            }
+            if !matches!(model, J::Obj(_)) {
+                // documented by the error text: a key cannot be looked up in a non-object
+                match (view.get("a"), view.get_path(&["a"])) {
+                    (Err(_), Err(_)) => {}
+                    (Ok(a), Ok(b)) if a == b => {}
+                    _ => return Err(mis("get_path_differs_from_stepwise_get", &path, "non-object root".into())),
+                }
+            }
+            c.owned_api(bytes, model)?;
+            Ok(())
+        })
+    };
+    match res {
+        Ok(Ok(())) => {}
+        Ok(Err(m)) => {
+            ok = false;
+            ctx.violation(
+                "round_trip",
+                &format!("C32/round_trip/{}{}", m.kind, sig_suffix),
+                json!({"text": clip(text, 300_000), "at": m.path, "detail": m.detail, "encoder": encoder, "jsonb_len": bytes.len()}),
+            );
+        }
+        Err(p) => {
+            ok = false;
+            let cause = if feat.long_key {
+                "key_over_65535_bytes".to_string()
+            } else if feat.long_str {
+                "string_over_65535_bytes".to_string()
+            } else {
+                panic_site(&p)
+            };
+            ctx.violation("view_no_panic", &format!("C32/view_no_panic/{}{}", cause, sig_suffix), json!({"text": clip(text, 300_000), "panic": p, "encoder": encoder}));
+        }
+    }
+    env.phase[PH_VIEW] += t0.elapsed().as_secs_f64();
+    let t0 = std::time::Instant::now();
+    // JSONB -> JSON text -> (independent parser) -> equal value
+    if !feat.nonfinite {
+        let r = catch(|| JsonbView::new(bytes).and_then(|v| v.to_json_string()).map_err(|e| e.to_string()));
+        let long = if feat.long_key {
+            Some("key_over_65535_bytes")
+        } else if feat.long_str {
+            Some("string_over_65535_bytes")
+        } else {
+            None
+        };
+        let bad: Option<(String, String)> = match r {
+            Err(p) => Some((long.map(|s| s.to_string()).unwrap_or_else(|| format!("panic/{}", panic_site(&p))), p)),
+            Ok(Err(e)) => Some((long.map(|s| s.to_string()).unwrap_or_else(|| format!("err/{}", err_head(&e))), e)),
+            Ok(Ok(out)) => match strict_parse(&out) {
+                Ok(p) if jeq(&p.value, model) => None,
+                Ok(p) => Some((long.map(|s| s.to_string()).unwrap_or_else(|| jdiff(&p.value, model)), clip(&out, 400))),
+                Err(e) => Some((long.map(|s| s.to_string()).unwrap_or_else(|| "output_is_not_json".into()), format!("{:?}: {}", e, clip(&out, 400)))),
+            },
+        };
+        if let Some((kind, d)) = bad {
+            ok = false;
+            ctx.violation("to_json_string", &format!("C32/to_json_string/{}{}", kind, sig_suffix), json!({"text": clip(text, 300_000), "detail": d, "encoder": encoder}));
+        }
+    }
+    env.phase[PH_TOJSON] += t0.elapsed().as_secs_f64();
+    ok
+}
+
+/// `text` is valid JSON (by construction or by the independent strict parser) with value `model`.
+fn check_valid(ctx: &mut Sink, env: &mut Env, text: &str, model: &J, surrogate_pairs: u32) {
+    ctx.eval();
+    let t0 = std::time::Instant::now();
+    let r = catch(|| parse_json(text).map(|r| (r.value, r.consumed)).map_err(|e| format!("{:#}", e)));
+    env.phase[PH_PARSE] += t0.elapsed().as_secs_f64();
+    let (value, consumed) = match r {
+        Err(p) => {
+            ctx.violation("parse_no_panic", &format!("C32/parse_no_panic/{}", panic_site(&p)), json!({"text": clip(text, 300_000), "panic": p}));
+            return;
+        }
+        Ok(Err(e)) => {
+            if surrogate_pairs > 0 {
+                // establish the cause: same document with the non-BMP characters written raw
+                let t2 = render_doc(model, &mut env.rng, &PLAIN);
+                if let Ok(Ok(_)) = catch(|| parse_json(&t2).map(|_| ()).map_err(|e| e.to_string())) {
+                    ctx.violation(
+                        "parse_valid",
+                        "C32/parse_valid/surrogate_pair_escape_rejected",
+                        json!({"text": clip(text, 300_000), "error": e, "accepted_when_written_raw": clip(&t2, 2000)}),
+                    );
+                    ctx.count("surrogate_pair_docs_retried_raw", 1);
+                    check_valid(ctx, env, &t2, model, 0);
+                    return;
+                }
+            }
+            ctx.violation("parse_valid", &format!("C32/parse_valid/err/{}", err_head(&e)), json!({"text": clip(text, 300_000), "error": e}));
+            return;
+        }
+        Ok(Ok(x)) => x,
+    };
+    let t0 = std::time::Instant::now();
+    let parsed = conv(&value);
+    let same = jeq(&parsed, model);
+    env.phase[PH_ORACLE] += t0.elapsed().as_secs_f64();
+    if !same {
+        ctx.violation("parse_value", &format!("C32/parse_value/{}", jdiff(&parsed, model)), json!({"text": clip(text, 300_000), "parsed": clip(&format!("{:?}", value), 2000)}));
+        return;
+    }
+    if consumed != json_trim_end(text).len() {
+        ctx.violation("consumed", "C32/consumed/not_end_of_value", json!({"text": clip(text, 300_000), "consumed": consumed, "expected": json_trim_end(text).len()}));
+    }
+    let mut feat = Feat::default();
+    features(model, 0, &mut feat);
+    let t0 = std::time::Instant::now();
+    let enc = catch(|| (value.to_jsonb_bytes(), build_with_builder(&value)));
+    env.phase[PH_ENCODE] += t0.elapsed().as_secs_f64();
+    let (b1, b2) = match enc {
+        Ok(x) => x,
+        Err(p) => {
+            ctx.violation("encode_no_panic", &format!("C32/encode_no_panic/{}", panic_site(&p)), json!({"text": clip(text, 300_000), "panic": p}));
+            return;
+        }
+    };
+    let ok = if b1 == b2 {
+        ctx.count("encoders_identical_bytes", 1);
+        check_bytes(ctx, env, &b1, model, &feat, text, "JsonValue::to_jsonb_bytes == JsonbBuilder::build (identical bytes)", "")
+    } else {
+        ctx.count("encoders_different_bytes", 1);
+        let a = check_bytes(ctx, env, &b1, model, &feat, text, "JsonValue::to_jsonb_bytes", "");
+        let b = check_bytes(ctx, env, &b2, model, &feat, text, "JsonbBuilder::build", "/JsonbBuilder");
+        a && b
+    };
+    ctx.count("valid_docs", 1);
+    ctx.count("valid_doc_nodes", feat.nodes as u64);
+    if feat.dup_keys {
+        ctx.count("docs_with_duplicate_keys", 1)
+    }
+    if feat.depth >= 8 {
+        ctx.count("docs_with_depth_ge_8", 1)
+    }
+    if feat.non_bmp {
+        ctx.count("docs_with_non_bmp_chars", 1)
+    }
+    if surrogate_pairs > 0 {
+        ctx.count("docs_with_surrogate_pair_escapes", 1)
+    }
+    if feat.long_str || feat.long_key {
+        ctx.count("docs_with_string_or_key_over_65535_bytes", 1)
+    }
+    if feat.max_keys >= 50 {
+        ctx.count("docs_with_object_of_50_plus_keys", 1)
+    }
+    if ctx.nontrivial_count() < env.nontrivial_cap {
+        let mut h = 0xcbf29ce484222325u64;
+        shape(model, &mut h);
+        ctx.nontrivial(h);
+    }
+    if ok && env.samples_left > 0 && feat.nodes >= 6 && feat.nodes <= 40 {
+        env.samples_left -= 1;
+        ctx.sample(json!({"text": clip(text, 600), "nodes": feat.nodes, "depth": feat.depth, "jsonb_bytes": b1.len(), "duplicate_keys": feat.dup_keys}));
+    }
+}
+
+fn has_non_ws(s: &str) -> bool {
+    s.bytes().any(|b| !matches!(b, b' ' | b'\t' | b'\n' | b'\r'))
+}
+
+/// Any text. `must_reject`: class label when the text belongs to a class the check asserts is
+/// rejected (truncated / trailing garbage / bad escape), provided the strict parser agrees it is invalid.
+fn check_text(ctx: &mut Sink, env: &mut Env, text: &str, must_reject: Option<&str>) {
+    match strict_parse(text) {
+        Ok(p) => {
+            ctx.count("mutants_still_valid", must_reject.is_some() as u64);
+            check_valid(ctx, env, text, &p.value, p.surrogate_pairs)
+        }
+        Err(PErr::Unsupported(_)) => {
+            ctx.eval();
+            ctx.count("texts_outside_oracle_no_panic_only", 1);
+            if let Err(p) = catch(|| parse_json(text).map(|r| r.value.to_jsonb_bytes().len()).unwrap_or(0)) {
+                ctx.violation("parse_no_panic", &format!("C32/parse_no_panic/{}", panic_site(&p)), json!({"text": clip(text, 300_000), "panic": p}));
+            }
+        }
+        Err(PErr::Invalid(why)) => {
+            ctx.eval();
+            ctx.count("invalid_texts", 1);
+            let r = catch(|| parse_json(text).map(|r| (r.value, r.consumed)).map_err(|e| e.to_string()));
+            match r {
+                Err(p) => {
+                    ctx.violation("parse_no_panic", &format!("C32/parse_no_panic/{}", panic_site(&p)), json!({"text": clip(text, 300_000), "panic": p, "invalid_because": why}));
+                }
+                Ok(Err(_)) => ctx.count("invalid_rejected_with_err", 1),
+                Ok(Ok((value, consumed))) => {
+                    if consumed > text.len() || !text.is_char_boundary(consumed) {
+                        ctx.violation("consumed", "C32/consumed/out_of_range", json!({"text": clip(text, 300_000), "consumed": consumed}));
+                        return;
+                    }
+                    if has_non_ws(&text[consumed..]) {
+                        // the caller can see unconsumed input: counts as rejected
+                        ctx.count("invalid_rejected_by_consumed_lt_len", 1);
+                    } else if let Some(class) = must_reject {
+                        ctx.violation(
+                            "invalid_rejected",
+                            &format!("C32/invalid_rejected/{}", class),
+                            json!({"text": clip(text, 300_000), "class": class, "invalid_because": why, "parsed_as": clip(&format!("{:?}", value), 1000)}),
+                        );
+                    } else {
+                        ctx.count("invalid_accepted_leniently(not asserted)", 1);
+                        let e = env.lenient.entry(why).or_insert((0, clip(text, 160)));
+                        e.0 += 1;
+                        if text.len() < e.1.len() {
+                            e.1 = text.to_string();
+                        }
+                    }
+                    // whatever tree TurDB built must still survive JSONB
+                    let m = conv(&value);
+                    let sub = &text[..consumed];
+                    let mut f = Feat::default();
+                    features(&m, 0, &mut f);
+                    if f.depth <= 64 {
+                        check_valid_tree(ctx, env, &value, &m, &f, sub);
+                    }
+                }
+            }
+        }
+    }
+}
+
+/// self-consistency for leniently accepted texts: tree -> JSONB -> view == tree
+fn check_valid_tree(ctx: &mut Sink, env: &mut Env, value: &JsonValue, m: &J, f: &Feat, text: &str) {
+    match catch(|| (value.to_jsonb_bytes(), build_with_builder(value))) {
+        Ok((b1, b2)) => {
+            check_bytes(ctx, env, &b1, m, f, text, "JsonValue::to_jsonb_bytes (leniently accepted text)", "");
+            if b1 != b2 {
+                check_bytes(ctx, env, &b2, m, f, text, "JsonbBuilder::build (leniently accepted text)", "/JsonbBuilder");
+            }
+            ctx.count("lenient_trees_round_tripped", 1);
+        }
+        Err(p) => {
+            ctx.violation("encode_no_panic", &format!("C32/encode_no_panic/{}", panic_site(&p)), json!({"text": clip(text, 300_000), "panic": p}));
+        }
+    }
+}
+
+// ------------------------------------------------------------------------------------------
+// invalid texts
+// ------------------------------------------------------------------------------------------
+
+fn json_trim(t: &str) -> &str {
+    json_trim_end(t).trim_start_matches(|c| c == ' ' || c == '\t' || c == '\n' || c == '\r')
+}
+
+/// strict prefix of a document whose root is a container or a string (every such prefix is invalid)
+fn mutate_truncate(text: &str, rng: &mut Rng) -> Option<String> {
+    let t = json_trim(text);
+    if !matches!(t.as_bytes().first(), Some(b'{') | Some(b'[') | Some(b'"')) {
+        return None;
+    }
+    let mut cut = rng.below(t.len() as u64) as usize;
+    while !t.is_char_boundary(cut) {
+        cut -= 1;
+    }
+    Some(t[..cut].to_string())
+}
+
+fn mutate_garbage(text: &str, rng: &mut Rng) -> String {
+    let mut s = json_trim_end(text).to_string();
+    let nws = rng.below(3);
+    for _ in 0..nws {
+        s.push(*rng.pick(&[' ', '\n', '\t', '\r']));
+    }
+    let numberish = |c: u8| c.is_ascii_digit() || matches!(c, b'.' | b'e' | b'E' | b'+' | b'-');
+    if nws == 0 && s.as_bytes().last().map_or(false, |c| numberish(*c)) {
+        // "0" + "1" would be one (invalid) number literal, not a value followed by garbage
+        s.push(' ');
+    }
+    let g: &str = *rng.pick(&["x", "]", "}", ",", ":", "{}", "[]", "1", "\"s\"", "null", "true", "\u{0}", "é", "\u{1F600}", "\\", "\"", "-", "[", "{", "/", "#", "nul", "}}", ",1"]);
+    s.push_str(g);
+    for _ in 0..rng.below(2) {
+        s.push(' ');
+    }
+    s
+}
+
+/// positions inside string literals (not inside an escape) of a valid JSON text
+fn string_insert_positions(text: &str) -> Vec<usize> {
+    let b = text.as_bytes();
+    let mut out = vec![];
+    let mut i = 0;
+    let mut in_str = false;
+    while i < b.len() {
+        if !in_str {
+            if b[i] == b'"' {
+                in_str = true;
+            }
+            i += 1;
+        } else if b[i] == b'\\' {
+            out.push(i);
+            i += if b.get(i + 1) == Some(&b'u') { 6 } else { 2 };
+        } else if b[i] == b'"' {
+            out.push(i);
+            in_str = false;
+            i += 1;
+        } else {
+            if text.is_char_boundary(i) {
+                out.push(i);
+            }
+            i += 1;
+        }
+        if out.len() > 4000 {
+            break;
+        }
+    }
+    out
+}
+
+fn mutate_bad_escape(text: &str, rng: &mut Rng) -> Option<(String, &'static str)> {
+    let pos = string_insert_positions(text);
+    if pos.is_empty() {
+        return None;
+    }
+    let at = *rng.pick(&pos);
+    let hex = |rng: &mut Rng, n: usize| -> String { (0..n).map(|_| *rng.pick(&['0', '1', '7', '9', 'a', 'F', 'c', 'D'])).collect() };
+    let (ins, kind): (String, &'static str) = match rng.below(8) {
+        0 => (format!("\\{}", rng.pick(&['x', 'a', 'v', '0', '\'', 'U', 'N', 'e', ' ', 'B', 'T'])), "unknown_escape_letter"),
+        1 => (format!("\\{}", rng.pick(&['é', '中', '\u{1F600}'])), "unknown_escape_non_ascii"),
+        2 => {
+            let n = rng.usize(0, 3);
+            (format!("\\u{}{}", hex(rng, n), rng.pick(&["z", " ", "-", "G", "\\n", "."])), "u_escape_fewer_than_4_hex_digits")
+        }
+        3 => {
+            let mut h: Vec<char> = hex(rng, 4).chars().collect();
+            h[rng.below(4) as usize] = *rng.pick(&['G', 'g', 'x', ' ', '-', '_', 'é']);
+            (format!("\\u{}", h.into_iter().collect::<String>()), "u_escape_non_hex_digit")
+        }
+        4 => (format!("\\u+{}", hex(rng, 3)), "u_escape_plus_sign"),
+        5 => (format!("\\u{:04X}{}", 0xD800 + rng.below(0x400), rng.pick(&["", "x", " ", "\\n"])), "lone_high_surrogate"),
+        6 => (format!("\\u{:04x}", 0xDC00 + rng.below(0x400)), "lone_low_surrogate"),
+        _ => (format!("\\u{:04X}\\u{:04X}", 0xD800 + rng.below(0x400), *rng.pick(&[0x0041u64, 0xD800, 0xE000, 0xDBFF, 0x0000])), "high_surrogate_then_non_low_escape"),
+    };
+    let mut s = String::with_capacity(text.len() + ins.len());
+    s.push_str(&text[..at]);
+    s.push_str(&ins);
+    s.push_str(&text[at..]);
+    Some((s, kind))
+}
+
+const MUT_ALPHABET: &[&str] = &[
+    "{", "}", "[", "]", ",", ":", "\"", "\\", " ", "\n", "0", "1", "9", "-", "+", ".", "e", "E", "t", "r", "u", "n", "f", "a", "l", "s", "é", "\u{1F600}", "\u{0}", "\u{1}", "\t", "true",
+    "null", "\\u", "\\ud83d", "//", "/*", "'", ",,", "00", "1e", "e5", ".5", "Infinity", "NaN", "\u{feff}", "\u{a0}",
+];
+
+fn mutate_random(text: &str, rng: &mut Rng) -> String {
+    let mut chars: Vec<char> = text.chars().collect();
+    if chars.len() > 20_000 {
+        chars.truncate(20_000);
+    }
+    for _ in 0..rng.usize(1, 3) {
+        let n = chars.len();
+        match rng.below(6) {
+            0 if n > 0 => {
+                chars.remove(rng.below(n as u64) as usize);
+            }
+            1 | 2 => {
+                let at = rng.usize(0, n);
+                let ins: Vec<char> = rng.pick(MUT_ALPHABET).chars().collect();
+                chars.splice(at..at, ins);
+            }
+            3 if n > 0 => {
+                let at = rng.below(n as u64) as usize;
+                let ins: Vec<char> = rng.pick(MUT_ALPHABET).chars().collect();
+                chars.splice(at..at + 1, ins);
+            }
+            4 if n > 1 => {
+                // duplicate a slice
+                let a = rng.below(n as u64) as usize;
+                let l = rng.usize(1, (n - a).min(12));
+                let sl: Vec<char> = chars[a..a + l].to_vec();
+                let at = rng.usize(0, n);
+                chars.splice(at..at, sl);
+            }
+            5 if n > 1 => {
+                let a = rng.below(n as u64) as usize;
+                let b = rng.below(n as u64) as usize;
+                chars.swap(a, b);
+            }
+            _ => {}
+        }
+    }
+    chars.into_iter().collect()
+}
+
+fn random_style(rng: &mut Rng) -> Style {
+    Style {
+        ws: rng.below(4) as u8,
+        esc_u: *rng.pick(&[0u64, 0, 30, 200, 1000]),
+        esc_pair: *rng.pick(&[0u64, 0, 0, 0, 300, 1000]),
+        esc_slash: *rng.pick(&[0u64, 500, 1000]),
+    }
+}
+
+const WORKERS: u64 = 4;
+
+fn new_env(seed: u64, cap: usize) -> Env {
+    Env { rng: Rng::new(seed), st: Stats::default(), lenient: HashMap::new(), nontrivial_cap: cap, samples_left: 1, phase: [0.0; 6] }
+}
+
+/// one worker: `docs` generated documents, each followed (3 in 4) by one hostile variant
+fn worker(seed: u64, env_seed: u64, docs: u64, guard_s: f64, miri: bool, cap: usize) -> (Sink, Env) {
+    let mut ctx = Sink::new();
+    let mut env = new_env(env_seed, cap);
+    let mut rng = Rng::new(seed);
+    for i in 0..docs {
+        if !miri && i % 256 == 0 && ctx.start.elapsed().as_secs_f64() > guard_s {
+            ctx.count("stopped_by_time_guard_docs_not_run", docs - i);
+            break;
+        }
+        let t0 = std::time::Instant::now();
+        let class = if miri {
+            0
+        } else if i % 257 == 3 {
+            1
+        } else if i % 401 == 7 {
+            2
+        } else {
+            0
+        };
+        let model = match class {
+            1 => {
+                let n = *rng.pick(&[50usize, 64, 100, 255, 256, 257, 600, 1000, 3000]);
+                gen_many_keys(&mut rng, n)
+            }
+            2 => gen_long(&mut rng),
+            _ => gen_doc(&mut rng, miri),
+        };
+        let st = if class == 2 { Style { ws: rng.below(2) as u8, ..PLAIN } } else { random_style(&mut rng) };
+        let text = render_doc(&model, &mut rng, &st);
+        // harness self-check: the independent parser reads back exactly the generated model
+        let sp = match strict_parse(&text) {
+            Ok(p) => {
+                assert!(jeq_exact(&p.value, &model), "harness bug: renderer/strict parser disagree on {}", clip(&text, 500));
+                p.surrogate_pairs
+            }
+            Err(e) => panic!("harness bug: strict parser rejects generated text ({:?}): {}", e, clip(&text, 500)),
+        };
+        env.phase[PH_GEN] += t0.elapsed().as_secs_f64();
+        check_valid(&mut ctx, &mut env, &text, &model, sp);
+        if class == 2 {
+            continue;
+        }
+        // hostile variants of the same text
+        match rng.below(8) {
+            0 | 1 => {
+                if let Some(t) = mutate_truncate(&text, &mut rng) {
+                    ctx.count("mutants_truncated", 1);
+                    check_text(&mut ctx, &mut env, &t, Some("truncated"));
+                }
+            }
+            2 => {
+                let t = mutate_garbage(&text, &mut rng);
+                ctx.count("mutants_trailing_garbage", 1);
+                check_text(&mut ctx, &mut env, &t, Some("trailing_garbage"));
+            }
+            3 | 4 => {
+                if let Some((t, kind)) = mutate_bad_escape(&text, &mut rng) {
+                    ctx.count("mutants_bad_escape", 1);
+                    check_text(&mut ctx, &mut env, &t, Some(&format!("bad_escape/{}", kind)));
+                }
+            }
+            5 | 6 => {
+                let t = mutate_random(&text, &mut rng);
+                ctx.count("mutants_random_edit", 1);
+                check_text(&mut ctx, &mut env, &t, None);
+            }
+            _ => {}
+        }
+    }
+    (ctx, env)
+}
+
+pub fn run(a: &Args) -> i32 {
+    let miri = cfg!(miri);
+    let mut ctx = Ctx::new(
+        "C32",
+        &a.tier,
+        a.seed,
+        "exploration",
+        "random JSON documents from an independent model (depth <= 8; empty containers; unsorted and duplicate keys; keys sharing prefixes; objects with up to 3000 keys; strings with controls, quotes, backslashes, BMP / non-BMP characters written raw, as short escapes, as \\uXXXX in either hex case and as surrogate pairs; strings and keys around the 65 535-byte boundary; numbers as integers, fractions, exponents in every spelling, arbitrary finite f64 and boundary values) rendered with four whitespace styles; plus truncated / trailing-garbage / bad-escape / randomly mutated texts classified by the harness's own strict RFC 8259 parser. distinct_nontrivial = distinct structural hashes (node kinds, container sizes, string length and character classes, number magnitude classes) of valid documents that went text -> parse_json -> JSONB -> JsonbView comparison",
+    );
+    ctx.assumptions.push("numbers are compared as f64 values (JsonValue::Number(f64) is the documented representation); the expected f64 of a literal is Rust std's correctly rounded str::parse::<f64>".into());
+    ctx.assumptions.push("duplicate keys are undocumented: for a duplicated key the check only requires the value read back to be one of the values given for that key, and object_len to lie between the number of distinct keys and the number of pairs".into());
+    ctx.assumptions.push("texts whose numbers overflow f64 and containers whose data section exceeds the documented 24-bit offset field (16 MiB) are not generated".into());
+    ctx.assumptions.push("invalid texts outside the three asserted classes (truncated, trailing garbage, bad escape) are only required not to panic; lenient acceptances are listed in coverage.lenient_accepts".into());
+    let quick = ctx.quick();
+    let mut bulk: Vec<(String, String, u64)> = vec![];
+    let mut root = Rng::derive(a.seed, 32);
+
+    if let Some(p) = &a.replay {
+        let body: serde_json::Value = serde_json::from_str(&std::fs::read_to_string(p).expect("read replay file")).expect("replay file is JSON");
+        let text = body["detail"]["text"].as_str().expect("replay file has detail.text").to_string();
+        let class = body["detail"]["class"].as_str().map(|s| s.to_string());
+        println!("replaying text of {} bytes (class {:?})", text.len(), class);
+        let mut sink = Sink::new();
+        let mut env = new_env(root.next(), 10);
+        check_text(&mut sink, &mut env, &text, class.as_deref());
+        sink.merge_into(&mut ctx, &mut bulk);
+        ctx.nontrivial(1);
+        ctx.nontrivial(2);
+        return ctx.finish();
+    }
+
+    let docs: u64 = if miri { 200 } else if quick { 260_000 } else { 3_600_000 };
+    let guard_s: f64 = if quick { 46.0 } else { 530.0 };
+    let cap: usize = 400_000;
+    let nworkers = if miri { 1 } else { WORKERS };
+
+    // fixed corpus first: one document per feature the property statement names
+    let fixed: &[&str] = &[
+        "null", "true", "false", "0", "-0", "1.5e3", "\"\"", "\"a\"", "[]", "{}", "[[]]", "{\"a\":{}}", " [ 1 , 2 ] ",
+        "{\"b\":1,\"a\":2}", "{\"a\":1,\"a\":2}", "{\"a\":1,\"b\":{\"c\":[true,null,{\"d\":\"x\"}]}}",
+        "[[[[[[[[1]]]]]]]]", "{\"a\":{\"a\":{\"a\":{\"a\":{\"a\":{\"a\":{\"a\":{\"a\":null}}}}}}}}",
+        "\"\\u00e9\\n\\t\\\\\\\"\\/\\b\\f\\r\"", "\"\\ud83d\\ude00\"", "\"\u{1F600}\"", "{\"\\u0061\":1,\"a\":2}", "[1E+2,1e-2,-1.25E0]",
+    ];
+    let mut sink0 = Sink::new();
+    let mut env0 = new_env(root.next(), cap);
+    env0.samples_left = 0;
+    for t in fixed {
+        check_text(&mut sink0, &mut env0, t, None);
+    }
+    let mut results: Vec<(Sink, Env)> = vec![(sink0, env0)];
+
+    let seeds: Vec<(u64, u64)> = (0..nworkers).map(|_| (root.next(), root.next())).collect();
+    let per = docs / nworkers;
+    if nworkers == 1 {
+        results.push(worker(seeds[0].0, seeds[0].1, per, guard_s, miri, cap));
+    } else {
+        let handles: Vec<_> = seeds.iter().map(|&(s, e)| std::thread::spawn(move || worker(s, e, per, guard_s, miri, cap))).collect();
+        for h in handles {
+            match h.join() {
+                Ok(r) => results.push(r),
+                Err(e) => std::panic::resume_unwind(e),
+            }
+        }
+    }
+
+    let mut st = Stats::default();
+    let mut ph = [0.0f64; 6];
+    let mut lenient: HashMap<&'static str, (u64, String)> = HashMap::new();
+    for (sink, env) in results {
+        sink.merge_into(&mut ctx, &mut bulk);
+        st.key_lookups += env.st.key_lookups;
+        st.dup_key_lookups += env.st.dup_key_lookups;
+        st.absent_probes += env.st.absent_probes;
+        st.index_lookups += env.st.index_lookups;
+        st.paths += env.st.paths;
+        st.paths_hit += env.st.paths_hit;
+        st.owned_api += env.st.owned_api;
+        for k in 0..6 {
+            ph[k] += env.phase[k];
+        }
+        for (why, (n, ex)) in env.lenient {
+            let e = lenient.entry(why).or_insert((0, ex.clone()));
+            e.0 += n;
+            if ex.len() < e.1.len() {
+                e.1 = ex;
+            }
+        }
+    }
+    // further occurrences of signatures whose first details were already recorded
+    for (assertion, sig, n) in bulk {
+        for _ in 0..n {
+            ctx.violation(&assertion, &sig, json!({"note": "further occurrence of this signature; see the first replay files for details"}));
+        }
+    }
+    ctx.extra.insert("workers".into(), json!(nworkers));
+    ctx.extra.insert(
+        "phase_cpu_seconds".into(),
+        json!({"generate_render_selfcheck": ph[PH_GEN], "parse_json(valid docs)": ph[PH_PARSE], "encode_both": ph[PH_ENCODE], "view_compare": ph[PH_VIEW], "to_json_string_reparse": ph[PH_TOJSON], "parse_tree_vs_model": ph[PH_ORACLE]}),
+    );
+    ctx.count("object_key_lookups", st.key_lookups);
+    ctx.count("duplicate_key_lookups", st.dup_key_lookups);
+    ctx.count("absent_key_probes", st.absent_probes);
+    ctx.count("array_index_lookups", st.index_lookups);
+    ctx.count("path_lookups", st.paths);
+    ctx.count("path_lookups_reaching_a_value", st.paths_hit);
+    ctx.count("owned_value_api_lookups", st.owned_api);
+    let mut len: Vec<_> = lenient.iter().collect();
+    len.sort_by(|a, b| b.1 .0.cmp(&a.1 .0));
+    let lj: serde_json::Map<String, serde_json::Value> = len.iter().map(|(k, v)| (k.to_string(), json!({"count": v.0, "shortest_example": v.1}))).collect();
+    ctx.extra.insert("lenient_accepts".into(), serde_json::Value::Object(lj));
+    ctx.finish()
 }
